@@ -158,7 +158,7 @@ class Ctx:
                         break
                     lines.append(json.loads(l))
             for k, e in enumerate(lines):
-                c = corrupt_event(e)
+                c = corrupt_event(e, mode)
                 if c is None:
                     continue
                 d = self.sub("selftest")
@@ -228,10 +228,19 @@ class Ctx:
         return 1 if self.violations else 0
 
 
-def corrupt_event(e):
+def corrupt_event(e, mode=None):
     """Returns a copy of a recorded event with one observation changed, or None if this kind of line has none."""
     c = json.loads(json.dumps(e))
     ev = c.get("ev")
+    if ev is None and "pre" in c and "q" in c and mode == "C11":     # single step, distance predicates only
+        m, far = c["M"], (c["pc"] + c["M"] // 2) % c["M"]
+        if c["WL"] // 2 >= m // 2 or any(d[0] == far for d in c["d"]):
+            return None
+        ins = list(c["pre"][far])
+        ins[3] = (ins[3] + 1) % m
+        c["d"] = c["d"] + [[far, ins]]
+        c["_corrupted"] = "a changed cell claimed at distance M/2, beyond floor(W/2)"
+        return c
     if ev is None and "pre" in c and "q" in c:                       # single step
         c["q"] = list(c["q"]) + [0]
         c["_corrupted"] = "queue got an extra entry"
